@@ -509,11 +509,11 @@ pub fn main(args: &[String]) {
             cases.push(rand_adf(&mut rng, n, format!("r{}_{}", n, k)));
         }
         // composed frameworks of 9-16 statements (C02: 8-11, its odometer visits 3^n candidates), judged by AdfCompose
-        if tier != "feat" {
-            let nbig = match (thorough, heavy) { (false, false) => 60, (false, true) => 30, (true, false) => 500, (true, true) => 200 };
+        {
+            let nbig = if tier == "feat" { 12 } else { match (thorough, heavy) { (false, false) => 60, (false, true) => 30, (true, false) => 500, (true, true) => 200 } };
             let (lo, hi) = if props.iter().any(|p| p == "C02") { (8, 11) } else { (9, 16) };
             // frameworks with hundreds of models (exactly 256, and more): C03-C05 only (complete() would visit 3^n candidates)
-            if !props.iter().any(|p| p == "C02" || p == "C01") {
+            if tier != "feat" && !props.iter().any(|p| p == "C02" || p == "C01") {
                 let shapes: &[(usize, usize, usize)] = if thorough { &[(8, 0, 0), (5, 2, 0), (7, 1, 1), (9, 0, 0), (6, 1, 2), (8, 0, 1)] } else if heavy { &[(8, 0, 0), (5, 2, 0)] } else { &[(8, 0, 0), (5, 2, 0), (7, 1, 1)] };
                 for (k, sh) in shapes.iter().enumerate() {
                     let (case, blocks, observers) = many_models_adf(&mut rng, format!("many{}", k), *sh);
